@@ -345,14 +345,14 @@ def infer(prog, order_no=0):
 
     def _alarm(signum, frame):
         raise InferenceHang("kind inference does not terminate within 10 s")
-    old = signal.signal(signal.SIGALRM, _alarm)
-    signal.setitimer(signal.ITIMER_REAL, 10)
+    old = signal.signal(signal.SIGVTALRM, _alarm)      # CPU time
+    signal.setitimer(signal.ITIMER_VIRTUAL, 10)
     try:
         with contextlib.redirect_stdout(io.StringIO()):
             table = infer_kinds(dag, registry())
     finally:
-        signal.setitimer(signal.ITIMER_REAL, 0)
-        signal.signal(signal.SIGALRM, old)
+        signal.setitimer(signal.ITIMER_VIRTUAL, 0)
+        signal.signal(signal.SIGVTALRM, old)
     return dag, table
 
 
